@@ -167,7 +167,9 @@ def run(ctx, B):
         pairs = [(a, b) for a in range(NOPS) for b in range(a, NOPS)]
         for a, b in pairs:
             core = a in CORE and b in CORE and (not quick or 3 not in (a, b))       # LineEnergy(LB) has ~400 nested function entries: function-entry points only in thorough
-            harnesses.append(([[a], [b]], "F" if (core and (not quick or (a + b) % 3 == 0)) else "-", 2 if quick else 3))
+            fpts = core and (not quick or (a + b) % 3 == 0)
+            # function-entry points multiply the schedules: they keep bound 2 in both tiers; the other harnesses get bound 3 in thorough
+            harnesses.append(([[a], [b]], "F" if fpts else "-", 2 if (quick or fpts) else 3))
         c6 = CORE[:6] if quick else CORE[:8]
         for a, b in itertools.product(c6, repeat=2):
             harnesses.append(([[a, b], [b, a]], "-", 2))
